@@ -60,6 +60,11 @@ Definition parse_wday (len : Z) (s : text) : res (option (punit * Z) * text) :=
   | _ => let? rest := remove_part 1 s in no_part rest
   end.
 
+(* ":mm:ss" after the hour of a five-letter zone *)
+Definition zone5_with_seconds (hms : Z -> Z -> Z) (s : text) : res (option (punit * Z) * text) :=
+  let? s := must (remove_part 1 s) in let? '(minute, s) := pick_u32 2 s in
+  let? s := must (remove_part 1 s) in let? '(second, s) := pick_u32 2 s in some_part POffset (hms minute second) s.
+
 Definition parse_zone (len : Z) (s : text) (with_z : bool) : res (option (punit * Z) * text) :=
   let? '(prefix, s) := pick_text 1 s in
   if with_z && text_eqb prefix [90] then some_part POffset 0 s else
@@ -75,8 +80,7 @@ Definition parse_zone (len : Z) (s : text) (with_z : bool) : res (option (punit 
          then (let? '(minute, s) := pick_u32 2 s in let? '(second, s) := pick_u32 2 s in some_part POffset (hms minute second) s)
          else (let? '(minute, s) := pick_u32 2 s in some_part POffset (hm minute) s)
   | 5 => if nth_is_digit s 4 && (match nth_char s 3 with Some c => c =? 58 | None => false end)
-         then (let? s := must (remove_part 1 s) in let? '(minute, s) := pick_u32 2 s in
-               let? s := must (remove_part 1 s) in let? '(second, s) := pick_u32 2 s in some_part POffset (hms minute second) s)
+         then zone5_with_seconds hms s
          else (let? s := remove_part 1 s in let? '(minute, s) := pick_u32 2 s in some_part POffset (hm minute) s)
   | _ => let? s := remove_part 1 s in let? '(minute, s) := pick_u32 2 s in some_part POffset (hm minute) s
   end.
